@@ -21,7 +21,7 @@ for which two counterexamples are kept below.
 | HEAD returns the same status and headers without a body                | `head_is_get_without_body` (model of `render_GET`/`render_HEAD`: status, ETag, Content-Range, Content-Length), `head_same_headers_no_body` (`FileDownloader.render` alone) |
 | (multi-range: first range only — RFC permits a subset; outside "single") | `multi_range_first_only` |
 | ETag / If-None-Match (as far as "same status and headers" goes)        | `if_none_match_hit_304`, `if_none_match_miss_ignored`, `handler_is_downloader` |
-| "for literal, immutable and mutable files" (quantifier)                | the handler model is parametric in `NodeInfo` (mutable?, storage index?); that CHK / SDMF / MDMF / LIT nodes deliver `file[first..first+size)` from `read(consumer, first, size)` is *correspondence only* (routed GET/HEAD through Site/Root on the in-process grid) — the download paths themselves are C03/C46/C11 territory |
+| "for literal, immutable and mutable files" (quantifier)                | the handler model is parametric in `NodeInfo` (mutable?, storage index?) and takes the file as the byte list that `filenode.read(consumer, first, size)` slices (`nodeRead`). That the real nodes deliver exactly `file[first..first+size)` is not proved here: for mutable files (SDMF/MDMF, the segment arithmetic of `Retrieve`) it rests on C09's ranged-read theorem (`read_range_slice`), for immutable files on the download properties (C03/C46); it is *tied here by correspondence only* — routed GET/HEAD through Site/Root on the in-process grid, including multi-segment CHK and a production-size 3-segment MDMF file with Range headers around every segment boundary (body == file slice, length == Content-Length; seeded C40-d) |
 | Accept-Ranges, Content-Type equal on HEAD and GET                      | monitor only (routed path) |
 | the code before the fixes violates the statement                       | `asIs_suffix_on_empty_counterexample`, `asIs_open_range_at_end_counterexample` |
 
